@@ -2384,8 +2384,12 @@ def distributed_shampoo(
       m1_scale_shape_and_dtype = []
       m2_scale_shape_and_dtype = []
       if qdtype != jnp.float32:
-        m1_scale_shape_and_dtype = [list(param.shape)[1:], qdtype]
-        m2_scale_shape_and_dtype = [list(param.shape)[1:], qdtype]
+        # The payload is stored in the quantized dtype, its per-column
+        # bucket sizes in float32 (see QuantizedValue.quantize).
+        m1_shape_and_dtype = [list(param.shape), qdtype]
+        m2_shape_and_dtype = [list(param.shape), qdtype]
+        m1_scale_shape_and_dtype = [list(param.shape)[1:], jnp.float32]
+        m2_scale_shape_and_dtype = [list(param.shape)[1:], jnp.float32]
 
       diagonal_statistics_shape_and_dtype = [list(param.shape), param.dtype]
       local_stats_flat.append(
@@ -2424,7 +2428,7 @@ def distributed_shampoo(
         [statistics_shape, jnp.float32], [preconditioners_shape, jnp.float32],
         [[num_statistics], jnp.int32])
     return ShampooState(  # pytype: disable=wrong-arg-types  # numpy-scalars
-        count=[[], jnp.float32],
+        count=[[], jnp.int32],
         stats=ShardedShampooStats(global_stats, local_stats))
 
   def sharded_update_fn(grads, state, params):
